@@ -28,6 +28,10 @@
                                  bytes of the escape (for every oracle whose
                                  ranges lie inside the piece: `LitOk`).
 
+   * `string_error_span_exact`, `decodeLit_string_error_cites_escape`   the same
+                                 for a string literal `"m"`: `span.start + 1 + range`
+                                 (`simple_literal` + `unescape_str`) designates
+                                 exactly the escape inside the content `m`;
    * `source_piece_start_constants`, `uScan_brace_arm_uses_source_step`,
      `pieces_start_from_source_init`, `source_arith_unescape_*`   the constants of
                                  the scan (`let mut piece_start = 0`, `piece_start =
@@ -175,6 +179,69 @@ the oracle reports `3..5` in piece 1; the model cites bytes 7..9 -/
 example : fText ⟨['f', '"', '{', '{', '€', '\\', 'q', '"'], ⟨fun _ => false, fun _ => false, fun _ => false⟩,
       fun f s e => if f = true ∧ s = 2 ∧ e = 9 then some (.custom, 1, 3, 5) else none, []⟩ (2, 9) []
       ⟨Lexer.new [], [], [], none⟩ = .err ⟨.custom, (7, 9), none⟩ ⟨Lexer.new [], [], [], none⟩ := by
+  rfl
+
+/-! ## string literals: `span.start + 1 + range` (`simple_literal` + `unescape_str`) -/
+
+/-- the content `&s[1..s.len() - 1]` of a quoted token text -/
+theorem content_text (q : Char) (hq : sz q = 1) (m : List Char) :
+    textOf (q :: (m ++ [q])) (1, blen (q :: (m ++ [q])) - 1) = m := by
+  have hb : blen (q :: (m ++ [q])) = 1 + blen m + 1 := by simp only [blen, blen_append, hq]; omega
+  refine textOf_decomp (a := [q]) (b := [q]) (by simp) (by simp [blen, hq]) ?_
+  show blen (q :: (m ++ [q])) - 1 = blen [q] + blen m
+  rw [hb]; simp [blen, hq]
+
+/-- `string_error_span_exact`: for a string token `"m"` at `sp`, the location
+`span.start + 1 + range` of an escape error is a span of the source on character
+boundaries and the text under it is the text the escaper's range designates in
+the content `m`. -/
+theorem string_error_span_exact (src : List Char) (sp : Span) (hsp : SpanOk src sp) (m : List Char)
+    (ht : textOf src sp = '"' :: (m ++ ['"'])) (a b : Nat) (hab : SpanOk m (a, b)) :
+    SpanOk src (sp.1 + 1 + a, sp.1 + 1 + b) ∧ textOf src (sp.1 + 1 + a, sp.1 + 1 + b) = textOf m (a, b) := by
+  have hq : sz '"' = 1 := by decide
+  have hc : SpanOk (textOf src sp) (1, blen (textOf src sp) - 1) := by rw [ht]; exact content_spanOk hq m
+  have hm : textOf (textOf src sp) (1, blen (textOf src sp) - 1) = m := by rw [ht]; exact content_text '"' hq m
+  have hab' : SpanOk (textOf (textOf src sp) (1, blen (textOf src sp) - 1)) (a, b) := by rw [hm]; exact hab
+  refine ⟨spanOk_in2 hsp hc hab', ?_⟩
+  have h1 := textOf_textOf hc hab'
+  have h2 := textOf_textOf hsp (spanOk_in hc hab')
+  rw [hm] at h1
+  rw [h1, h2]
+  simp only [Nat.add_assoc]
+
+/-- `decodeLit_string_error_cites_escape`: when the model of `simple_literal` fails on a string token `"m"`
+with an escape error, the `ParseError` cites exactly the bytes the escaper pointed at inside `m`. -/
+theorem decodeLit_string_error_cites_escape (c : Ctx) (hl : LitOk c) (sp : Span) (hsp : SpanOk c.src sp)
+    (m : List Char) (ht : textOf c.src sp = '"' :: (m ++ ['"'])) (s s' : PState) (e : PErr)
+    (h : decodeLit c .string sp s = .err e s') :
+    ∃ k j a b, c.lit false sp.1 sp.2 = some (k, j, a, b) ∧ e.kind = k ∧ SpanOk c.src e.span ∧
+      textOf c.src e.span = textOf m (a, b) := by
+  unfold decodeLit at h
+  cases hlit : c.lit false sp.1 sp.2 with
+  | none => rw [hlit] at h; simp [addNode] at h
+  | some v =>
+    obtain ⟨k, j, a, b⟩ := v
+    rw [hlit] at h
+    simp only [fail, PR.err.injEq] at h
+    obtain ⟨he, _⟩ := h
+    have hq : sz '"' = 1 := by decide
+    have hm : textOf (textOf c.src sp) (1, blen (textOf c.src sp) - 1) = m := by rw [ht]; exact content_text '"' hq m
+    have hab := (hl false sp.1 sp.2 k j a b hlit).2 rfl (by show (textOf c.src sp).head? = _; rw [ht]; rfl)
+    have hab' : SpanOk m (a, b) := by
+      have : SpanOk (textOf (textOf c.src sp) (1, blen (textOf c.src sp) - 1)) (a, b) := hab
+      rwa [hm] at this
+    obtain ⟨h1, h2⟩ := string_error_span_exact c.src sp hsp m ht a b hab'
+    refine ⟨k, j, a, b, rfl, ?_, ?_, ?_⟩
+    · rw [← he]
+    · rw [← he]; exact h1
+    · rw [← he]; exact h2
+
+/-- non-vacuity: `"€\q"` at bytes 0..7 — the escaper's range `3..5` in the content `€\q` is cited at 4..6: `\q` -/
+example : textOf ['"', '€', '\\', 'q', '"'] (0 + 1 + 3, 0 + 1 + 5) = textOf ['€', '\\', 'q'] (3, 5) := by decide
+
+example : decodeLit ⟨['"', '€', '\\', 'q', '"'], ⟨fun _ => false, fun _ => false, fun _ => false⟩,
+      fun f s e => if f = false ∧ s = 0 ∧ e = 7 then some (.custom, 0, 3, 5) else none, []⟩ .string (0, 7)
+      ⟨Lexer.new [], [], [], none⟩ = .err ⟨.custom, (4, 6), none⟩ ⟨Lexer.new [], [], [], none⟩ := by
   rfl
 
 end RotoV.C06FSpans
